@@ -51,12 +51,12 @@ func parseTxtar(b string) map[string]string {
 // RawCases loads the repository's own testdata and example patches with their inputs.
 func RawCases() []rawCase {
 	rawOnce.Do(func() {
-		ents, _ := os.ReadDir("/repo/testdata")
+		ents, _ := os.ReadDir(filepath.Join(core.RepoDir(), "testdata"))
 		for _, e := range ents {
 			if e.IsDir() || e.Name() == "README.md" {
 				continue
 			}
-			b, err := os.ReadFile(filepath.Join("/repo/testdata", e.Name()))
+			b, err := os.ReadFile(filepath.Join(core.RepoDir(), "testdata", e.Name()))
 			if err != nil {
 				continue
 			}
